@@ -35,24 +35,23 @@ Qed.
 (** Completeness and uniqueness.  [WF]: a commit is recorded by at most one operation and
     recorded predecessors are never commits recorded by a newer operation.  Then the walk
     lists exactly the commits reachable from the start commits through recorded
-    predecessor edges; no commit recorded by an operation is listed twice; commits listed
-    without an operation are recorded nowhere; and when every reachable commit is recorded
-    somewhere ([Closed]) the whole list is duplicate-free and fully attributed. *)
+    predecessor edges, each exactly ONCE; commits listed without an operation are recorded
+    nowhere; and when every reachable commit is recorded somewhere ([Closed]) every entry
+    is attributed to an operation. *)
 Theorem C46_complete_once : forall ops start out,
   let ms := some_prefix ops in
   WF ms -> walk_predecessors ops start = (out, Done) ->
   (forall x, In x (map fst out) <-> greach_from ms start x)
-  /\ NoDup (map fst (filter tagged out))
+  /\ NoDup (map fst out)
   /\ (forall c, In (c, None) out -> ~ key_any ms c)
-  /\ (Closed ms start -> NoDup (map fst out) /\ forallb tagged out = true).
+  /\ (Closed ms start -> forallb tagged out = true).
 Proof.
   intros ops start out ms W H. unfold walk_predecessors in H. rewrite walk_some_prefix in H.
-  fold ms in H. pose proof (walk_spec ms 0 start out W H) as [Hsnd Hcmp Htag Hunt Hnd Hord].
+  fold ms in H. pose proof (walk_spec ms 0 start out W H) as [Hsnd Hcmp Htag Hunt Hnd Hnda Hord].
   split; [|split; [assumption|split; [assumption|]]].
   - intros x. split; [|apply Hcmp]. intros Hx. apply in_map_iff in Hx.
     destruct Hx as ([c tag] & <- & Hin). eapply Hsnd; eauto.
-  - intros C. pose proof (walk_closed_all_tagged ms start out W C H) as Hall.
-    split; [|assumption]. rewrite <- (all_tagged_filter out Hall). assumption.
+  - intros C. exact (walk_closed_all_tagged ms start out W C H).
 Qed.
 
 (** Order: an entry comes before every predecessor its operation recorded for it, and
@@ -66,7 +65,7 @@ Theorem C46_topological : forall ops start out,
 Proof.
   intros ops start out ms W H l1 c j l2 E. unfold walk_predecessors in H.
   rewrite walk_some_prefix in H. fold ms in H.
-  pose proof (walk_spec ms 0 start out W H) as [Hsnd Hcmp Htag Hunt Hnd Hord].
+  pose proof (walk_spec ms 0 start out W H) as [Hsnd Hcmp Htag Hunt Hnd Hnda Hord].
   assert (Hin : In (c, Some j) out) by (rewrite E; apply in_or_app; right; now left).
   destruct (Htag c j Hin) as (i & m' & Ej & Hn & Hk).
   assert (N.to_nat j = i) as -> by (subst j; rewrite N.add_0_l; apply Nat2N.id).
@@ -116,26 +115,25 @@ Proof.
   - intros C. apply closedb_sound in C. eapply walk_closed_all_tagged; eauto.
 Qed.
 
-(** Under [wfb] and [closedb] the model's list passes the FULL checker: nothing twice. *)
+(** Under [wfb] the model's list passes the FULL checker: nothing is listed twice. *)
 Theorem C46_model_once : forall ops start,
   let ms := some_prefix ops in
-  wfb ms = true -> closedb ms start = true ->
+  wfb ms = true ->
   exists out, walk_predecessors ops start = (out, Done) /\ nodupb (map fst out) = true.
 Proof.
-  intros ops start ms Hw Hc. destruct (C46_model_accepted ops start Hw) as (out & E & _ & _).
+  intros ops start ms Hw. destruct (C46_model_accepted ops start Hw) as (out & E & _ & _).
   exists out. split; [assumption|]. apply nodupb_spec.
   destruct (wfb_sound ms Hw) as [W _].
-  destruct (C46_complete_once ops start out W E) as (_ & _ & _ & H).
-  apply H. now apply closedb_sound.
+  now destruct (C46_complete_once ops start out W E) as (_ & H & _).
 Qed.
 
-(** F6.  Without [Closed] "exactly once" is FALSE of the faithful model: a commit recorded
+(** F6 (repaired by /repo commit 77438d6).  With the flush as it was before the repair
+    ([flush_old]: no de-duplication) "exactly once" is FALSE of the model: a commit recorded
     by no operation (imported from Git, or older than predecessor records) that is reached
-    along two rewrite paths is listed twice by [flush_commits].  Witness: 4 squashes 3 and 2,
-    both rewrites of 1, and no operation records 1.  (Replayed on the real CLI: see
-    props/C46.json.) *)
-Theorem C46_once_refuted : exists ops start out,
-  WF (some_prefix ops) /\ walk_predecessors ops start = (out, Done) /\ ~ NoDup (map fst out).
+    along two rewrite paths was listed twice.  Witness: 4 squashes 3 and 2, both rewrites
+    of 1, and no operation records 1.  The same witness is corpus case 0 of the harness. *)
+Theorem C46_once_old_refuted : exists ops start out,
+  WF (some_prefix ops) /\ walk_predecessors_old ops start = (out, Done) /\ ~ NoDup (map fst out).
 Proof.
   exists [Some [(4, [3; 2])]; Some [(3, [1])]; Some [(2, [1])]]%N, [4%N],
          [(4, Some 0); (3, Some 1); (2, Some 2); (1, None); (1, None)]%N.
@@ -159,7 +157,7 @@ Example C46_nonvacuous :
      = ([(5, Some 0); (4, Some 1); (3, Some 1); (2, Some 1); (1, Some 2)]%N, Done)
   /\ walk_predecessors [Some [(1, [2]); (2, [1])]]%N [1]%N = ([], Cycle 2%N)
   /\ walk_predecessors [Some [(3, [9; 9])]; None; Some [(9, [])]]%N [3]%N
-     = ([(3, Some 0); (9, None); (9, None)]%N, Done).
+     = ([(3, Some 0); (9, None)]%N, Done).
 Proof. vm_compute. repeat split. Qed.
 
 Print Assumptions C46_terminates.
@@ -168,4 +166,4 @@ Print Assumptions C46_topological.
 Print Assumptions C46_checker_sound.
 Print Assumptions C46_model_accepted.
 Print Assumptions C46_model_once.
-Print Assumptions C46_once_refuted.
+Print Assumptions C46_once_old_refuted.
